@@ -437,6 +437,10 @@ mod worker {
                 async move {
                     let stream_h3 = match stream_quic.upgrade().await {
                         Ok(stream_h3) => stream_h3,
+                        Err(ProtoReadError::H3(ErrorCode::StreamCreation)) => {
+                            // Unknown stream types must not be a connection error of any kind
+                            return;
+                        }
                         Err(ProtoReadError::H3(error_code)) => {
                             h3_slot.send(Err(DriverError::Proto(error_code)));
                             return;
